@@ -5,6 +5,7 @@ import Nebula.Driver.Common
 import Nebula.Driver.NetArgs
 import Nebula.Model.Lighthouse
 import Nebula.Spec.Lighthouse
+import Nebula.Model.CalcRemote
 
 namespace Nebula.Driver.Lighthouse
 open Nebula.Driver Nebula.Net Nebula.RemoteList Nebula.Lighthouse
@@ -21,6 +22,8 @@ def showList {α : Type} (f : α → String) (l : List α) (sep : String := ",")
 structure State where
   cfg : Option Cfg := none
   lh : LH := {}
+  /-- `lighthouse.calculated_remotes`: overlay prefix -> (mask prefix, port) list -/
+  crTbl : List (Prefix × List (Prefix × Nat)) := []
 
 def kvGet (kvs : List (String × String)) (k : String) : String := ((kvs.find? (·.1 == k)).map (·.2)).getD "-"
 
@@ -34,13 +37,50 @@ def parseStatics (s : String) : Option (List (Addr × List AP)) :=
       | _, _ => none
     | _ => none
 
-def parseG (toks : List String) : Option (Option (List AllowList.Entry)) :=
-  match toks with
-  | ["-"] => some none
-  | _ => (toks.mapM fun (t : String) =>
-      match t.splitOn "=" with
-      | [k, v] => (parsePrefix k).map fun p => ({ key := some p, val := some (v == "T") } : AllowList.Entry)
-      | _ => none).map some
+def parseEntries (toks : List String) : Option (List AllowList.Entry) :=
+  toks.mapM fun (t : String) =>
+    match t.splitOn "=" with
+    | [k, v] => (parsePrefix k).map fun p => ({ key := some p, val := some (v == "T") } : AllowList.Entry)
+    | _ => none
+
+/-- split at the `R` markers: global tokens, then (range key, tokens) sections. -/
+def splitRanges : List String → List String × List (String × List String)
+  | [] => ([], [])
+  | "R" :: k :: rest =>
+    let (g, rs) := splitRanges rest
+    ([], (k, g) :: rs)
+  | t :: rest =>
+    let (g, rs) := splitRanges rest
+    (t :: g, rs)
+
+def parseG (toks : List String) : Option (Option (List AllowList.Entry) × List AllowList.RangeEntry) :=
+  let (g, rs) := splitRanges toks
+  let gl : Option (Option (List AllowList.Entry)) :=
+    match g with
+    | ["-"] => some none
+    | _ => (parseEntries g).map some
+  let rl : Option (List AllowList.RangeEntry) := rs.mapM fun r =>
+    match parsePrefix r.1, parseEntries r.2 with
+    | some p, some es => some ({ key := some p, list := some es } : AllowList.RangeEntry)
+    | _, _ => none
+  match gl, rl with
+  | some g, some r => some (g, r)
+  | _, _ => none
+
+def parseCalc (s : String) : Option (List (Prefix × List (Prefix × Nat))) :=
+  if s == "-" then some [] else
+  (s.splitOn ";").mapM fun e =>
+    match e.splitOn "@" with
+    | [k, v] =>
+      match parsePrefix k, (v.splitOn "+").mapM (fun (x : String) =>
+          match x.splitOn ":" with
+          | [m, p] => match parsePrefix m, p.toNat? with
+            | some m, some p => some (m, p)
+            | _, _ => none
+          | _ => none) with
+      | some k, some l => some (k, l)
+      | _, _ => none
+    | _ => none
 
 def hex16 (a : Addr) : String := bytesToHex (natToBytes 16 a.val)
 def hex4 (n : Nat) : String := bytesToHex (natToBytes 4 n)
@@ -123,23 +163,67 @@ def step (s : State) (args : List String) (impl : String) : State × Out :=
     let (kvToks, gToks) := (rest.takeWhile (· != "G"), (rest.dropWhile (· != "G")).drop 1)
     let kvs := kvToks.filterMap fun t => match t.splitOn "=" with | [k, v] => some (k, v) | _ => none
     match parseList parsePrefix (kvGet kvs "nets"), parseList parseAddr (kvGet kvs "lhs"),
-          parseStatics (kvGet kvs "st"), parseG gToks with
-    | some nets, some lhs, some st, some g =>
+          parseStatics (kvGet kvs "st"), parseG gToks, parseCalc (kvGet kvs "cr") with
+    | some nets, some lhs, some st, some (g, rs), some crs =>
       let al : Except AllowList.Err (Option (AllowList.Table Bool)) :=
         match g with
         | none => .ok none
         | some es => (AllowList.newAllowList es).map some
-      match al with
-      | .error _ => ({}, { model := "err", tag := "triv:reset-err" })
-      | .ok al =>
+      let inside : Except AllowList.Err (Option (AllowList.Table (Option (AllowList.Table Bool)))) :=
+        if rs.isEmpty then .ok none else (AllowList.rangesLoop [] rs).map some
+      match al, inside with
+      | .ok al, .ok inside =>
         let statics := st.map (·.1)
         if lhs.any (fun a => !memB statics a) then ({}, { model := "err", tag := "triv:reset-err" }) else
         let cfg : Cfg := { amLighthouse := kvGet kvs "lh" == "1", myNets := nets, lighthouses := lhs,
-                           ral := { allowList := al, inside := none },
+                           ral := { allowList := al, inside := inside },
                            initV := if kvGet kvs "v" == "1" then 1 else 2, staticList := statics }
         let lh := st.foldl (fun lh e => addStatic cfg lh e.1 e.2) ({} : LH)
-        ({ cfg := some cfg, lh := lh }, { model := "ok", verdict := expect "lh-load" impl "ok", tag := "triv:reset" })
-    | _, _, _, _ => ({}, badOp)
+        ({ cfg := some cfg, lh := lh, crTbl := crs },
+         { model := "ok", verdict := expect "lh-load" impl "ok",
+           tag := if !rs.isEmpty then "reset:ranges" else if !crs.isEmpty then "reset:calc" else "triv:reset" })
+      | _, _ => ({}, { model := "err", tag := "triv:reset-err" })
+    | _, _, _, _, _ => ({}, badOp)
+  | ["gate", kind, _, allow, from_] =>
+    -- two real nodes: A = 10.0.0.1/24 (under test) and B = 10.0.0.2 at 192.0.2.2:4242
+    -- <global entries>[~<range prefix>~<range entries>]
+    let parts := allow.splitOn "~"
+    let al : Option (Option (AllowList.Table Bool)) :=
+      if allow == "-" then some none else
+      match parseEntries ((parts.headD "").splitOn ",") with
+      | some es => (match AllowList.newAllowList es with | .ok t => some (some t) | .error _ => none)
+      | none => none
+    let inside : Option (Option (AllowList.Table (Option (AllowList.Table Bool)))) :=
+      match parts with
+      | [_, rp, re] =>
+        (match parsePrefix rp, parseEntries (re.splitOn ",") with
+         | some p, some es =>
+           (match AllowList.rangesLoop [] [{ key := some p, list := some es }] with
+            | .ok t => some (some t) | .error _ => none)
+         | _, _ => none)
+      | _ => some none
+    let k : Option LearnKind := if kind == "hs1" then some .stage1 else if kind == "hs2" then some .stage2
+      else if kind == "roam" then some .roam else none
+    match al, inside, k, parseAP from_ with
+    | some al, some inside, some k, some fr =>
+      let c : Cfg := { amLighthouse := false, myNets := [⟨⟨.v4, 0x0a000001⟩, 24⟩], lighthouses := [],
+                       ral := { allowList := al, inside := inside }, initV := 2, staticList := [] }
+      let bUdp : AP := ⟨⟨.v4, 0xc0000202⟩, 4242⟩
+      let cur : Option AP := if kind == "roam" then some bUdp else none
+      let g := learnGate c k [⟨.v4, 0x0a000002⟩] cur ⟨fr, false⟩ false
+      let remote := match g with | some r => some r | none => cur
+      let learned := g.isSome || (kind == "roam" && fr == bUdp) || (kind == "hs2" && fr == bUdp)
+      let model := "remote=" ++ (remote.map showAP).getD "-" ++ " learned=" ++ boolStr learned
+      -- C36 oracle on the implementation: the source became A's remote / a cached address only if it is usable
+      let took := impl.startsWith ("remote=" ++ showAP fr) || impl.endsWith "learned=1"
+      let known := fr == bUdp && kind != "hs1"
+      let verdict :=
+        if took && !known && inMyNets c fr.addr then "bad addr-learned-inside-overlay"
+        else if took && !known && !c.ral.allowAll [⟨.v4, 0x0a000002⟩] fr.addr then "bad addr-learned-denied"
+        else "ok"
+      (s, { model := model, verdict := verdict,
+            tag := s!"gate:{kind}:" ++ (if g.isSome then "learned" else if inMyNets c fr.addr then "inside-overlay" else "refused-or-same") })
+    | _, _, _, _ => (s, badOp)
   | op :: rest =>
     match s.cfg with
     | none => (s, { model := "none", tag := "triv:none" })
@@ -198,22 +282,49 @@ def step (s : State) (args : List String) (impl : String) : State × Out :=
             | some rl =>
               let sa : Option (List Addr → Addr → Bool) := some (fun vs x => shouldAddAll c vs x)
               let rl' := rebuild rl sa []
-              let learned : List AP := rl.cache.flatMap (fun e => e.2.v4l.toList ++ e.2.v6l.toList.map AP.out)
               let verdict :=
                 match parseList parseAP impl with
                 | none => "bad addr-candidates-unparsable"
                 | some l =>
                   if l.any (fun a => rl.badRemotes.contains a) then "bad addr-candidate-blocked"
-                  else if l.any (fun a => !learned.contains a && inMyNets c a.addr) then "bad addr-candidate-inside-overlay"
-                  else if l.any (fun a => !learned.contains a && !AllowList.allow c.ral.allowList a.addr) then "bad addr-candidate-denied"
+                  else if l.any (fun a => inMyNets c a.addr) then "bad addr-candidate-inside-overlay"
+                  else if l.any (fun a => !AllowList.allow c.ral.allowList a.addr) then "bad addr-candidate-denied"
                   else "ok"
               let out := showList showAP rl'.addrs
               let s2 : State := { s with lh := s.lh.setList id rl' }
               (s2, { model := out, verdict := verdict, tag := if out == "-" then "addrs:empty" else "addrs" })
-      | "learn", [vs, a] =>
-        match parseList parseAddr vs, parseAP a with
-        | some vs, some a => ({ s with lh := learnRemote s.lh vs a }, { model := "ok", tag := "op:learn" })
-        | _, _ => (s, badOp)
+      | "roam", [vs, cur, via, rel] =>
+        match parseList parseAddr vs, (if cur == "-" then some none else (parseAP cur).map some), parseAP via with
+        | some vs, some cur, some via =>
+          let v : Via := { udp := via, relayed := rel == "1" }
+          let g := learnGate c .roam vs cur v false
+          let remote := match g with | some r => some r | none => cur
+          let verdict :=
+            -- C36: a remote that was not there before must be usable for the peer
+            if impl == "-" || some impl == cur.map showAP then "ok" else
+            match parseAP impl with
+            | none => "bad addr-roam-unparsable"
+            | some r => if inMyNets c r.addr then "bad addr-roam-inside-overlay"
+                        else if !c.ral.allowAll vs r.addr then "bad addr-roam-denied" else "ok"
+          ({ s with lh := learnEvent c (queryCache s.lh vs) .roam vs cur v false },
+           { model := (remote.map showAP).getD "-", verdict := verdict,
+             tag := match g with | some _ => "roam:learned" | none => if v.relayed then "roam:relayed" else "roam:refused-or-same" })
+        | _, _, _ => (s, badOp)
+      | "calc", [v] =>
+        match parseAddr v with
+        | none => (s, badOp)
+        | some v =>
+          -- tree.Lookup: longest prefix; ApplyV4 on every entry (the generator uses IPv4 overlay addresses and masks)
+          let entries := (lpm s.crTbl v).getD []
+          let calc4 : List AP := entries.filterMap fun e =>
+            match CalcRemote.newCalculatedRemote e.1 e.1 e.2 with
+            | .ok cr => (match CalcRemote.applyV4 cr v with
+                | .ok (ip, port) => some ({ addr := ⟨.v4, ip⟩, port := port } : AP)
+                | .panic => none)
+            | .error _ => none
+          let added := v.is4 && !calc4.isEmpty
+          let lh' := if added then addCalculated c s.lh v calc4 [] else s.lh
+          ({ s with lh := lh' }, { model := boolStr added, verdict := "ok", tag := if added then "calc:added" else "calc:none" })
       | "block", [v, a] =>
         match parseAddr v, parseAP a with
         | some v, some a =>
